@@ -202,6 +202,33 @@ CHECKS = {
             "Joint deviation bound rather than a full cross product; clock advances only between load() calls; <= 6 records, 3 files. "
             "One known finding (file starting at the timestamp of a flat predecessor is skipped).",
             "DESIGN.md §3 C18"),
+    "C12": ("exploration",
+            "bounded-exhaustive enumeration of operation lists x client settings on the real client.connector (fake socket, virtual clock) "
+            "against the real server loop, array-model oracle on yielded results + reference decoding of the recorded request frames; "
+            "exhaustive operation-string grammar against a reference parser",
+            "Every list of <= 3 (thorough 4) operations over a 10-operation alphabet (tag and @class/instance/attribute reads, element "
+            "ranges, byte offset, casted writes, refused read and write, Get/Set Attribute Single, operations with their own "
+            "route/send path) x settings {synchronous, depth 1,2,3,5} x multiple {0,80,150,500} x fragment on/off, each one real "
+            "client run over mc/clientenv.py against the real enip_srv_tcp, also with byte-at-a-time reply delivery: exactly one "
+            "result per operation, in order, identical (status, value) across all settings and equal to the array model; no "
+            "Multiple Service Packet in the recorded traffic mixes route/send paths. Every string of the operation grammar (10 "
+            "paths x 7 indices x 4 counts x 5 offsets x 20 value parts x fragment x 3 int types) is compared with an independent "
+            "reference parser; format_path/parse_path round trips over 2940 segment lists.",
+            "Quick uses a covering subset of 10 settings; lists longer than 3 (4) are not enumerated.",
+            "DESIGN.md §3 C12"),
+    "C13": ("fault_enumeration",
+            "complete enumeration of connection faults (every byte offset of the reply and request streams x EOF/timeout, every dropped "
+            "frame, pairs/triples of faults then recovery) on the real client.connector / proxy / poll.run over a fake socket and a "
+            "virtual clock",
+            "The fault-free exchange of 5 distinguishable operations is recorded, then one real client run per fault: the server->client "
+            "stream cut at EVERY byte offset followed by EOF or by silence until the virtual clock passes the timeout (bytes before "
+            "the cut delivered whole or one per recv), the client->server stream cut at every offset, every reply frame dropped, "
+            "ordered pairs (thorough triples) of faults followed by a healthy connection; subjects connector.pipeline / synchronous / "
+            "operate, get_attribute.proxy used as documented, poll.run. Oracle: every yielded result is correct for its own "
+            "operation, none for an operation whose reply was not completely delivered, the stream raises or yields exactly k "
+            "results, after a failure the proxy has discarded its gateway and its next use reconnects and returns correct data.",
+            "k = 5 operations at depth 3; timeouts are virtual; callers use the documented `with` forms.",
+            "DESIGN.md §3 C13"),
     "C14": ("model_checking",
             "explicit-state BFS over the real server loop driven by two independent clients: pylogix in-process on a socket shim, and the "
             "reference codec encoding every request kind byte by byte; array-model and reference-decoder oracles",
